@@ -1,4 +1,4 @@
-Definition intra_is_taxable (t : intratx) : bool := (dgtb (x_fiat_fee t) dzero).
+Definition intra_is_taxable (t : intratx) : bool := (Z.gtb (x_crypto_fee t) 0).
 Definition intra_is_earning (t : intratx) : bool := false.
 Definition intra_crypto_balance_change (t : intratx) : Z := (x_crypto_fee t).
 Definition intra_fiat_taxable_amount (t : intratx) : dec := (x_fiat_fee t).
